@@ -21,7 +21,8 @@ import (
 // engine "crash" (C06): {"srcs": [latin1 ...], "linear": bool, "post": bool}
 // Every source x entry point (Parse, StmtsSeq, StmtsSeq with a consumer that breaks after the first
 // statement, WordsSeq, Words, InteractiveSeq fed one line per Read, Document, Arithmetic) x 5 language
-// variants x 4 option rows (KeepComments, StopAt("$$"), RecoverErrors 0|1|5) is called under recover().
+// variants x 4 option rows (KeepComments, StopAt("$$"), RecoverErrors 0|1|5) is called under recover(),
+// once on a fresh parser and once on a parser that is reused for all calls of the job.
 // With "post", every tree that comes back without an error (also from RecoverErrors) is printed
 // with four printer configurations, simplified (on a second parse), walked and typedjson-encoded,
 // each under recover().  With "linear", Parse of the source repeated 64x and 512x is timed (best of
@@ -200,6 +201,7 @@ func crashEngine(raw json.RawMessage, _ []string) (any, error) {
 		return nil, err
 	}
 	var fails []crashFail
+	reused := map[string]*syntax.Parser{}
 	calls, posts, trees := 0, 0, 0
 	var worst float64
 	for si, s := range v.Srcs {
@@ -219,6 +221,20 @@ func crashEngine(raw json.RawMessage, _ []string) (any, error) {
 					}); pm != "" {
 						fails = append(fails, crashFail{si, "panic", entry, ln, row.name, pm})
 						continue
+					}
+					// the same call on a parser that has already been through every earlier call of this job
+					// (property C08 says reuse is allowed): it must not crash either
+					rk := ln + "|" + row.name
+					rp := reused[rk]
+					if rp == nil {
+						opts := append([]syntax.ParserOption{syntax.Variant(lang)}, row.opts...)
+						rp = syntax.NewParser(opts...)
+						reused[rk] = rp
+					}
+					calls++
+					if pm := guarded(what("reused:"+entry, ln, row.name), func() { callEntry(entry, rp, src) }); pm != "" {
+						fails = append(fails, crashFail{si, "panic", "reused:" + entry, ln, row.name, pm})
+						delete(reused, rk) // do not go on with an object that crashed
 					}
 					if !v.Post {
 						continue
